@@ -45,7 +45,7 @@ theorem size_pos (t : Tm) : 0 < t.size := by
 theorem intern_spec {H : Tm → Nat} {U : Tm → Prop} (hN : NoCollision H U) {d : DState} (hd : DOk H U d)
     {v : Tm} (hv : U v) :
     (d.intern H v).1 = v ∧ DOk H U (d.intern H v).2 ∧ Ext d (d.intern H v).2 ∧
-      ∃ a, (d.intern H v).2.lookup (v.key H) = some (a, v) := by
+      ∃ a, (d.intern H v).2.lookup (v.key H) = some (a, v) ∧ (d.intern H v).2.log = d.log ++ [(a, v)] := by
   unfold DState.intern
   cases hl : d.lookup (v.key H) with
   | some e =>
@@ -63,7 +63,7 @@ theorem intern_spec {H : Tm → Nat} {U : Tm → Prop} (hN : NoCollision H U) {d
       · exact hd.log b x hx
       · cases hx; exact hl
     · exact fun _ _ h => h
-    · exact hl
+    · exact ⟨hl, rfl⟩
   | none =>
     have hlk : ∀ k, DState.lookup ⟨(v.key H, (d.fresh, v)) :: d.known, d.fresh + 1, d.log ++ [(d.fresh, v)]⟩ k
         = if v.key H = k then some (d.fresh, v) else d.lookup k := by
@@ -112,7 +112,7 @@ theorem intern_spec {H : Tm → Nat} {U : Tm → Prop} (hN : NoCollision H U) {d
       rcases hx with hx | hx
       · exact hext _ _ (hd.log b x hx)
       · cases hx; rw [hlk]; simp
-    · rw [hlk]; simp
+    · exact ⟨by rw [hlk]; simp, rfl⟩
 
 theorem mem_sizeList {t : Tm} {ts : List Tm} (h : t ∈ ts) : t.size ≤ Tm.sizeList ts := by
   induction ts with
@@ -124,6 +124,18 @@ theorem mem_sizeList {t : Tm} {ts : List Tm} (h : t ∈ ts) : t.size ≤ Tm.size
     · have := ih h; omega
 
 
+/- the handles a decoder produces for what `enc` emitted, in order of production: a first occurrence
+   yields the handles of the contained values and then its own, a later occurrence only its own -/
+mutual
+  def prod (H : Tm → Nat) (seen : List (Nat × Nat)) : Tm → List Tm
+    | .node ty label kids =>
+      if (ty, H (.node ty label kids)) ∈ seen then [.node ty label kids]
+      else prodList H ((ty, H (.node ty label kids)) :: seen) kids ++ [.node ty label kids]
+  def prodList (H : Tm → Nat) (seen : List (Nat × Nat)) : List Tm → List Tm
+    | [] => []
+    | t :: ts => prod H seen t ++ prodList H (enc H seen t).2 ts
+end
+
 section roundtrip
 variable {H : Tm → Nat} {U : Tm → Prop}
 
@@ -132,7 +144,7 @@ theorem dec_enc_tm (hU : ∀ ty label kids, U (.node ty label kids) → ∀ y, y
     (t : Tm) → U t → ∀ (seen : List (Nat × Nat)) (d : DState) (anc : List Tm) (rest : List Tok) (fuel : Nat),
       DOk H U d → SeenOk H seen d anc → (∀ y, y ∈ anc → U y ∧ t.size < y.size) → 2 * t.size ≤ fuel →
       ∃ d', dec H fuel d ((enc H seen t).1 ++ rest) = .ok (t, d', rest) ∧ DOk H U d' ∧ Ext d d' ∧
-        SeenOk H (enc H seen t).2 d' anc
+        SeenOk H (enc H seen t).2 d' anc ∧ d'.log.map (·.2) = d.log.map (·.2) ++ prod H seen t
   | .node ty label kids, ht, seen, d, anc, rest, fuel, hd, hs, hanc, hfuel => by
     obtain ⟨f, rfl⟩ : ∃ f, fuel = f + 1 := ⟨fuel - 1, by simp only [Tm.size] at hfuel; omega⟩
     by_cases hk : (ty, H (.node ty label kids)) ∈ seen
@@ -144,7 +156,9 @@ theorem dec_enc_tm (hU : ∀ ty label kids, U (.node ty label kids) → ∀ y, y
       · have hx' := hd.cons _ _ _ hx
         have : x = .node ty label kids := hN _ _ hx'.1 ht hx'.2
         subst this
-        refine ⟨{ d with log := d.log ++ [(a, .node ty label kids)] }, ?_, ⟨hd.cons, hd.lt, hd.inj, ?_⟩, fun _ _ h => h, hs⟩
+        refine ⟨{ d with log := d.log ++ [(a, .node ty label kids)] }, ?_, ⟨hd.cons, hd.lt, hd.inj, ?_⟩, fun _ _ h => h, hs, ?_⟩
+        rotate_left 2
+        · rw [prod]; simp [hk]
         · simp only [List.singleton_append, dec]
           rw [hx]
         · intro b z hz
@@ -178,10 +192,12 @@ theorem dec_enc_tm (hU : ∀ ty label kids, U (.node ty label kids) → ∀ y, y
           simp only [Tm.size] at this
           exact ⟨this.1, by omega⟩
       have hfuel' : 2 * Tm.sizeList kids + 1 ≤ f := by simp only [Tm.size] at hfuel; omega
-      obtain ⟨d1, hdec, hd1, hext1, hs1⟩ :=
+      obtain ⟨d1, hdec, hd1, hext1, hs1, hlog1⟩ :=
         dec_enc_list hU hN kids (hU ty label kids ht) _ d _ rest f hd hs' hanc' hfuel'
-      obtain ⟨hi1, hi2, hi3, a, hi4⟩ := intern_spec hN hd1 ht
-      refine ⟨(d1.intern H (.node ty label kids)).2, ?_, hi2, Ext.trans hext1 hi3, ?_⟩
+      obtain ⟨hi1, hi2, hi3, a, hi4, hi5⟩ := intern_spec hN hd1 ht
+      refine ⟨(d1.intern H (.node ty label kids)).2, ?_, hi2, Ext.trans hext1 hi3, ?_, ?_⟩
+      rotate_left 2
+      · rw [hi5, prod]; simp [hk, hlog1]
       · simp only [List.cons_append, dec]
         rw [hdec]
         simp only [hi1]
@@ -195,12 +211,13 @@ theorem dec_enc_list (hU : ∀ ty label kids, U (.node ty label kids) → ∀ y,
     (ts : List Tm) → (∀ t, t ∈ ts → U t) → ∀ (seen : List (Nat × Nat)) (d : DState) (anc : List Tm) (rest : List Tok) (fuel : Nat),
       DOk H U d → SeenOk H seen d anc → (∀ y, y ∈ anc → U y ∧ Tm.sizeList ts < y.size) → 2 * Tm.sizeList ts + 1 ≤ fuel →
       ∃ d', decList H fuel ts.length d ((encList H seen ts).1 ++ rest) = .ok (ts, d', rest) ∧ DOk H U d' ∧ Ext d d' ∧
-        SeenOk H (encList H seen ts).2 d' anc
+        SeenOk H (encList H seen ts).2 d' anc ∧ d'.log.map (·.2) = d.log.map (·.2) ++ prodList H seen ts
   | [], _, seen, d, anc, rest, fuel, hd, hs, _, hfuel => by
     obtain ⟨f, rfl⟩ : ∃ f, fuel = f + 1 := ⟨fuel - 1, by omega⟩
-    refine ⟨d, ?_, hd, Ext.refl d, ?_⟩
+    refine ⟨d, ?_, hd, Ext.refl d, ?_, ?_⟩
     · simp [encList, decList]
     · simpa [encList] using hs
+    · simp [prodList]
   | t :: ts, hts, seen, d, anc, rest, fuel, hd, hs, hanc, hfuel => by
     obtain ⟨f, rfl⟩ : ∃ f, fuel = f + 1 := ⟨fuel - 1, by omega⟩
     have hpos := size_pos t
@@ -209,18 +226,31 @@ theorem dec_enc_list (hU : ∀ ty label kids, U (.node ty label kids) → ∀ y,
         ((enc H seen t).1 ++ (encList H (enc H seen t).2 ts).1, (encList H (enc H seen t).2 ts).2) := by
       rw [encList]
     rw [henc]
-    obtain ⟨d1, hdec1, hd1, hext1, hs1⟩ :=
+    obtain ⟨d1, hdec1, hd1, hext1, hs1, hlog1⟩ :=
       dec_enc_tm hU hN t (hts t List.mem_cons_self) seen d anc ((encList H (enc H seen t).2 ts).1 ++ rest) f hd hs
         (fun y hy => ⟨(hanc y hy).1, by have := (hanc y hy).2; omega⟩) (by omega)
-    obtain ⟨d2, hdec2, hd2, hext2, hs2⟩ :=
+    obtain ⟨d2, hdec2, hd2, hext2, hs2, hlog2⟩ :=
       dec_enc_list hU hN ts (fun x hx => hts x (List.mem_cons_of_mem _ hx)) (enc H seen t).2 d1 anc rest f hd1 hs1
         (fun y hy => ⟨(hanc y hy).1, by have := (hanc y hy).2; omega⟩) (by omega)
-    refine ⟨d2, ?_, hd2, Ext.trans hext1 hext2, hs2⟩
-    simp only [List.length_cons, List.append_assoc, decList]
-    rw [hdec1]
-    simp only
-    rw [hdec2]
+    refine ⟨d2, ?_, hd2, Ext.trans hext1 hext2, hs2, ?_⟩
+    · simp only [List.length_cons, List.append_assoc, decList]
+      rw [hdec1]
+      simp only
+      rw [hdec2]
+    · rw [hlog2, hlog1, prodList, List.append_assoc]
 end
+
+/-- allocations of produced handles are equal exactly when the values are equal -/
+theorem log_sharing (hN : NoCollision H U) {d : DState} (hd : DOk H U d) {a b : Nat} {x y : Tm}
+    (hx : (a, x) ∈ d.log) (hy : (b, y) ∈ d.log) : a = b ↔ x = y := by
+  have h1 := hd.log a x hx
+  have h2 := hd.log b y hy
+  constructor
+  · intro h; subst h
+    have hk := hd.inj _ _ _ _ _ h1 h2
+    exact hN x y (hd.cons _ _ _ h1).1 (hd.cons _ _ _ h2).1 hk
+  · intro h; subst h
+    rw [h1] at h2; cases h2; rfl
 
 end roundtrip
 
